@@ -1,0 +1,15 @@
+//go:build verif
+// +build verif
+
+// Read-only view for the verification harness (property C09, see /verif): the id under which the receive loop
+// looks up the decoder hints of an incoming message.  Compiled only with `-tags verif`; nothing here is used by
+// the library.
+
+package mtproto
+
+import "github.com/xelaj/mtproto/internal/mtproto/messages"
+
+// VerifReqMsgIDOf runs the real reqMsgIDOf on a message body.
+func VerifReqMsgIDOf(body []byte) int {
+	return reqMsgIDOf(&messages.Unencrypted{Msg: body})
+}
